@@ -842,7 +842,7 @@ End Tokens.
 (* ------------------------------------------------------------------------- *)
 (* Part 3/4: sequences of tokens                                              *)
 Definition first_ok (c : Z) : Prop :=
-  c <> 0 /\ c <> 47 /\ c <> 37 /\ isspace c = false /\ c <> 46 /\ c <> 40.
+  c <> 0 /\ c <> 47 /\ c <> 37 /\ isspace c = false /\ c <> 46 /\ (c <> 40 /\ c <> 93).
 Definition sepw (s : str) : Prop := s <> [] /\ Forall (fun c => isspace c = true) s.
 
 Definition scalar (v : av) : Prop :=
